@@ -171,10 +171,45 @@ fn c08() {
     println!("C08 checkpoints={total} transparent={same}");
     for (k, (n, ex)) in &classes { println!("{n:8} {k}\n      first: {}", ex.chars().take(500).collect::<String>()); }
 }
+fn print_scaled(s: i64) -> String { // TeX 103
+    let mut out = String::new(); let mut s = s; if s < 0 { out.push('-'); s = -s; }
+    out.push_str(&(s / 65536).to_string()); out.push('.'); s = 10 * (s % 65536) + 5; let mut delta = 10i64;
+    loop { if delta > 65536 { s = s + 32768 - 50000; } out.push((b'0' + (s / 65536) as u8) as char); s = 10 * (s % 65536); delta *= 10; if s <= delta { break; } }
+    out
+}
+fn c06() {
+    let mut classes: BTreeMap<String, (u64, String)> = BTreeMap::new(); let (mut total, mut agree) = (0u64, 0u64);
+    let mut lat: Vec<i64> = vec![0, 1, 2, 3, 7]; for k in [8, 14, 15, 16, 29, 30] { let p = 1i64 << k; lat.extend([p - 1, p, p + 1]); } lat.push((1 << 31) - 1);
+    let mut l2: Vec<i64> = lat.iter().flat_map(|v| [*v, -*v]).collect(); l2.sort(); l2.dedup();
+    let max = (1i64 << 31) - 1; let maxd = (1i64 << 30) - 1;
+    for &a in &l2 { for &b in &l2 { for op in ["advance", "multiply", "divide"] { for ty in ["count", "dimen"] {
+        if ty == "dimen" && a.abs() > maxd { continue; }
+        if ty == "dimen" && op == "advance" && b.abs() > maxd { continue; }
+        total += 1;
+        let (set, rhs, get) = if ty == "count" { (format!("\\count1={a} "), format!("{b} "), "\\the\\count1 ") } else { (format!("\\dimen1={a}sp "), if op == "advance" { format!("{b}sp ") } else { format!("{b} ") }, "\\the\\dimen1 ") };
+        let src = format!("{set}\\{op}\\{ty}1 by {rhs}{get}");
+        // oracle
+        let want: Result<i64, ()> = match (op, ty) {
+            ("advance", _) => { let r = a + b; Ok(((r + (1i64 << 31)).rem_euclid(1i64 << 32)) - (1i64 << 31)) }
+            ("multiply", "count") => { let r = a * b; if r.abs() > max { Err(()) } else { Ok(r) } }
+            ("multiply", _) => { let r = a * b; if r.abs() > maxd { Err(()) } else { Ok(r) } }
+            (_, _) => { if b == 0 { Err(()) } else { Ok(a / b) } } };
+        let want_s = want.map(|v| if ty == "count" { v.to_string() } else { format!("{}pt", print_scaled(v)) });
+        let r = std::panic::catch_unwind(|| { let mut vm = new_vm(); run(&mut vm, &src) });
+        let got = match r { Err(_) => Err("PANIC".to_string()), Ok(x) => x.map(|s| s.trim().to_string()) };
+        match (&want_s, &got) { (Ok(w), Ok(g)) if w == g => agree += 1, (Err(()), Err(e)) if !e.contains("PANIC") => agree += 1,
+            _ => { let k = format!("{op} {ty}: {}", match (&want_s, &got) { (_, Err(e)) if e.contains("PANIC") => "PANIC".to_string(), (Ok(_), Ok(_)) => "value differs".into(), (Err(_), Ok(_)) => "TeX reports overflow/div0, crate accepts".into(), (Ok(_), Err(_)) => "crate errors, TeX accepts".into(), _ => "?".into() });
+                classes.entry(k).or_insert((0, format!("{src} want={want_s:?} got={got:?}"))).0 += 1; } }
+    } } } }
+    // print check through \the for lattice dimens
+    for &a in &l2 { if a.abs() > maxd { continue; } total += 1; let src = format!("\\dimen1={a}sp \\the\\dimen1 "); let mut vm = new_vm(); let got = run(&mut vm, &src).map(|s| s.trim().to_string()); if got == Ok(format!("{}pt", print_scaled(a))) { agree += 1; } else { classes.entry("print differs".into()).or_insert((0, format!("{src} {got:?}"))).0 += 1; } }
+    println!("C06 arithmetic: cases={total} agree={agree}");
+    for (k, (n, ex)) in &classes { println!("{n:8} {k}\n      first: {}", ex.chars().take(300).collect::<String>()); }
+}
 fn main() {
     std::panic::set_hook(Box::new(|_| {}));
     let what = std::env::args().nth(1).unwrap_or("c01".into());
-    if what == "c01" { c01(std::env::args().nth(2).map(|s| s.parse().unwrap()).unwrap_or(5)); } else { c08(); }
+    if what == "c01" { c01(std::env::args().nth(2).map(|s| s.parse().unwrap()).unwrap_or(5)); } else if what == "c06" { c06(); } else { c08(); }
 }
 // Results on the pinned tree:
 //   c01 5 : 8904 histories (14 target kinds, ops { } local global, length <= 5). Mismatches: the 5-op history "{{LG}" for every
@@ -183,3 +218,5 @@ fn main() {
 //           macro / let / countdef / font kinds: no mismatch.
 //   c08   : 5088 checkpoints (31 fragments squared x 2 split points x json/msgpack/bincode, observer + adaptive drain of groups and
 //           conditionals). 4833 transparent; all 255 others are the active-character definition lost by the round trip (D7).
+//   c06   : 12 203 programs (\advance/\multiply/\divide on \count and \dimen over a 49-value lattice squared): agree=12 195; the 8 others are
+//           \multiply\count producing exactly -2^31, which TeX's mult_integers rejects (D5).
